@@ -61,4 +61,15 @@ example : ∃ s s' e seen, run (Gen.opt 1) init (demoUpg.take 12) = some s ∧
     atomStep (Gen.opt 1) s 0 (.upgCas seen) none false = some (s', e) ∧
     s'.agents[0]? = some (.held .X seen) := ⟨_, _, _, _, rfl, rfl, rfl, rfl⟩
 
+/-- C10 for MCSLock: while a SIX or X grant is held (including the whole of an upgrade or downgrade, whose
+    grant is continuous in the model: `upg` phases count as SIX, `dng` phases as X), every other grant on that
+    lock is S. -/
+theorem c10_mcs (nlocks nthreads : Nat) (acts : List Mcs.Act)
+    (hr : Mcs.RunOK mcsPb mcsCb mcsParams (Mcs.mkSt nlocks nthreads) acts)
+    (i j : Nat) (a b : Mcs.Agent) (m m' : Mode) (hij : i ≠ j)
+    (hi : (Mcs.run mcsParams (Mcs.mkSt nlocks nthreads) acts).agents[i]? = some a)
+    (hj : (Mcs.run mcsParams (Mcs.mkSt nlocks nthreads) acts).agents[j]? = some b) (hlk : a.lk = b.lk)
+    (hga : a.loc.grant? = some m) (hgb : b.loc.grant? = some m') (hm : m ≠ .S) : m' = .S :=
+  mcs_single_sixx nlocks nthreads acts hr i j a b m m' hij hi hj hlk hga hgb hm
+
 end CppUtil.Props
